@@ -20,8 +20,8 @@ import (
 var c18Cache = map[string]*decl.Decl{}
 
 // layout of add's positionals: 0 none, 1 [Words], 2 [Words,int], 3 [int,Words], 4 [Words, ...Words2]
-func c18Decl(layout int, subOpt bool, defaultOpts bool) *decl.Decl {
-	key := fmt.Sprint(layout, subOpt, defaultOpts)
+func c18Decl(layout int, subOpt bool, defaultOpts bool, pano bool) *decl.Decl {
+	key := fmt.Sprint(layout, subOpt, defaultOpts, pano)
 	if d := c18Cache[key]; d != nil {
 		return d
 	}
@@ -37,6 +37,7 @@ func c18Decl(layout int, subOpt bool, defaultOpts bool) *decl.Decl {
 		{Field: "Umlaut", Short: "ü", Long: "umlaut", Type: decl.TWords2},
 		{Field: "Color", Short: "c", Long: "color", Type: decl.TOnOff},
 		{Field: "PW", Long: "pw", Type: decl.TPWords},
+		{Field: "UpperShort", Short: "Z", Type: decl.TBool}, // sorts before every lower-case short name, after every long name
 	}}
 	deep := &decl.Cmd{Field: "Deep", Name: "deep", Opts: []*decl.Opt{{Field: "Depth", Long: "depth", Type: decl.TInt}}}
 	add := &decl.Cmd{Field: "Add", Name: "add", Aliases: []string{"a2"}, SubOptional: true, Cmds: []*decl.Cmd{deep}, Opts: []*decl.Opt{
@@ -65,6 +66,9 @@ func c18Decl(layout int, subOpt bool, defaultOpts bool) *decl.Decl {
 	d := &decl.Decl{Top: top, Options: flags.PassDoubleDash}
 	if defaultOpts {
 		d.Options = flags.HelpFlag | flags.PassDoubleDash
+	}
+	if pano {
+		d.Options |= flags.PassAfterNonOption
 	}
 	d.Finish()
 	c18Cache[key] = d
@@ -114,6 +118,12 @@ func init() {
 		subOpt := c.Bool()
 		defOpts := c.Bool()
 		lateAPI := c.Deviate(2) == 1 // built through the API; the parser's group is added after the commands and after a first completion and parse
+		// PassAfterNonOption set as well (two positional layouts whose fields complete differently): asserted before the first plain
+		// word as always, after it only where a positional value is being completed
+		pano := c.Bool()
+		if pano && !((layout == 2 || layout == 4) && !subOpt && !defOpts && !lateAPI) {
+			c.Skip()
+		}
 		maxDepth := 3
 		if !c.Thorough && (defOpts || layout == 1 || layout == 3) {
 			maxDepth = 2 // quick: the HelpFlag variants only differ by the built-in help options; two of the five layouts stay at 2
@@ -124,22 +134,42 @@ func init() {
 		if lateAPI && !c.Thorough && maxDepth > 2 {
 			maxDepth = 2
 		}
+		if pano && !c.Thorough && maxDepth > 2 {
+			maxDepth = 2
+		}
 		n := c.Choose(maxDepth + 1)
 		var prefix []string
 		for i := 0; i < n; i++ {
 			prefix = append(prefix, c18Units[c.Choose(len(c18Units))]...)
 		}
 		last := c18Last[c.Choose(len(c18Last))]
-		d := c18Decl(layout, subOpt, defOpts)
+		d := c18Decl(layout, subOpt, defOpts, pano)
 		c.Describe(func() interface{} {
-			return map[string]interface{}{"add_positionals": layout, "subcommands_optional": subOpt, "help_flag": defOpts, "api_build_with_group_added_after_use": lateAPI, "typed_words": prefix, "partial_last_word": last}
+			return map[string]interface{}{"add_positionals": layout, "subcommands_optional": subOpt, "help_flag": defOpts, "api_build_with_group_added_after_use": lateAPI, "pass_after_non_option": pano, "typed_words": prefix, "partial_last_word": last}
 		})
 		cfg := &ref.Config{D: d, Prefix: true}
 		res := ref.Run(cfg, prefix)
 		if res.Fault != nil || res.Grey {
 			c.Skip() // not a valid command-line prefix
 		}
-		key := fmt.Sprint(layout, subOpt, defOpts)
+		if pano {
+			passing, dashAfter := false, false
+			for i, f := range res.Fates {
+				if passing && strings.HasPrefix(prefix[i], "-") {
+					dashAfter = true
+				}
+				if f == ref.FPositional || f == ref.FRest {
+					passing = true
+				}
+			}
+			if passing && (len(res.Queue) == 0 || strings.HasPrefix(last, "-") || dashAfter) {
+				// after the first plain word everything is an argument, which the completer does not follow: only the
+				// completion of a positional value after plain words is asserted there
+				c.Skip()
+			}
+			c.Hit("pass-after-non-option")
+		}
+		key := fmt.Sprint(layout, subOpt, defOpts, pano)
 		recordStates(c, key, res, nil)
 		// run the real completer
 		build := func() *decl.Built {
@@ -344,15 +374,15 @@ func init() {
 	explore.Register(&explore.Check{
 		ID:         "C18",
 		Level:      "model_checking",
-		ShardDepth: 6,
+		ShardDepth: 7,
 		Body:       body,
-		Rule: "declaration with Completer-typed options (short+long, long-only, a multi-byte short name, two different word lists), an optional-argument option, hidden long and hidden short-only options, hidden command, short-only option, commands sharing a prefix (add, adx), alias, sub-subcommand; " +
-			"positionals of add in 5 layouts (none, [Words], [Words,int], [int,Words], [Words, ...Words2]) x subcommands-optional on the parser yes/no x HelpFlag yes/no x {struct tags, API build where a group of the parser is added after the commands and after a first completion and parse on the half-built parser}; every valid prefix (the CLM in prefix mode accepts it) of <= 3 units (quick: <= 2 on the HelpFlag variants and on two of the five positional layouts; thorough: <= 4 on the [Words,int] layout without HelpFlag) over 29 units " +
+		Rule: "declaration with Completer-typed options (short+long, long-only, a multi-byte short name, two different word lists), an optional-argument option, hidden long and hidden short-only options, hidden command, short-only options in lower and upper case, commands sharing a prefix (add, adx), alias, sub-subcommand; " +
+			"positionals of add in 5 layouts (none, [Words], [Words,int], [int,Words], [Words, ...Words2]) x subcommands-optional on the parser yes/no x HelpFlag yes/no (+ PassAfterNonOption on the two layouts whose positionals complete differently: after the first plain word only positional values are asserted) x {struct tags, API build where a group of the parser is added after the commands and after a first completion and parse on the half-built parser}; every valid prefix (the CLM in prefix mode accepts it) of <= 3 units (quick: <= 2 on the HelpFlag variants and on two of the five positional layouts; thorough: <= 4 on the [Words,int] layout without HelpFlag) over 29 units " +
 			"(flags, separate / attached / '=' arguments, pending option, cluster ending in a pending option, optional-argument option, command words and alias, plain words, numbers, terminator) x 35 partial last words; " +
 			"oracle from the CLM context after the prefix: (a) '-' / '--p' => exactly the non-hidden options in scope with that prefix, (b) value position of a Completer-typed option or positional => exactly its words re-attached to the spelling, " +
 			"(c) otherwise the non-hidden subcommands with that prefix, (d) sorted, (e) every offered option/command re-parsed by the real parser at that position is not unknown, (f) the real parser's Active chain on the typed words equals the model's",
-		Assumptions:  []string{"left unasserted: option names after --, the echo of a complete short flag, value positions whose type has no completions, PassAfterNonOption"},
-		RequiredHits: []string{"asserted", "offer-reparsed", "class:bare-dash", "class:long-name", "class:long-value", "class:short", "class:positional-value", "class:command-name", "class:option-value-separate", "class:after-terminator"},
+		Assumptions:  []string{"left unasserted: option names after --, the echo of a complete short flag, value positions whose type has no completions, option and command names after the first plain word under PassAfterNonOption"},
+		RequiredHits: []string{"asserted", "offer-reparsed", "class:bare-dash", "class:long-name", "class:long-value", "class:short", "class:positional-value", "class:command-name", "class:option-value-separate", "class:after-terminator", "pass-after-non-option"},
 		Bound:        [2]string{"prefixes <= 3 units", "prefixes <= 3 units, <= 4 on one declaration family"},
 		BudgetS:      [2]int{170, 1500},
 	})
